@@ -1897,8 +1897,11 @@ class _Simu(_IObserver, _params.Updatable, ABC):
 
         if self.isNonLinear:
             # dofsValues = dofsValues - u
-            # set incremental dof values
-            dofsValues -= self._Solver_Get_Newton_Raphson_current_solution()[dofs]
+            # set incremental dof values: the entries of a dof are summed afterwards, so u must
+            # be subtracted once per dof, not once per entry (a dof may be entered several times)
+            uniqueDofs, firstEntry = np.unique(dofs, return_index=True)
+            u = self._Solver_Get_Newton_Raphson_current_solution()
+            dofsValues[firstEntry] -= u[uniqueDofs]
 
         if algo == AlgoType.euler_explicit:
             # the solve variable is a^n: constrained DOFs have zero acceleration
@@ -2234,7 +2237,8 @@ class _Simu(_IObserver, _params.Updatable, ABC):
             self.Bc_Lagrange,  # type: ignore [arg-type]
         )
         if nBc > 0:
-            nBc += len(self.Bc_dofs_Dirichlet(problemType))
+            # one multiplier per constrained dof: a dof entered several times gets a single line
+            nBc += np.unique(self.Bc_dofs_Dirichlet(problemType)).size
         return nBc
 
     @property
